@@ -120,6 +120,34 @@ def run(width):
     except BaseException as e:
         fail("py_scores_getitem", "raised %s: %s" % (type(e).__name__, e), ctor="L=%d,M=%d" % (len(text), width))
 
+def run_held_view(width, length):
+    """a view taken BEFORE the striped sequence is reused for scoring must keep showing the logical contents afterwards
+    (scoring with a long motif appends look-ahead rows: if that reallocates the matrix the old view dangles)"""
+    global cases
+    text = ("ATGCATTGCAGCTTAGC" * (length // 17 + 1))[:length]
+    cols = {"A": list(range(1, width + 1)), "C": [2] * width, "G": [3] * width, "T": list(range(width, 0, -1))}
+    sm = lightmotif.CountMatrix(cols).normalize(0.1).log_odds()
+    bad = 0
+    try:
+        for rep in range(20):
+            st = lightmotif.stripe(text)
+            view = memoryview(st)
+            want = view.tolist()
+            try:
+                sm.calculate(st)
+            except BufferError:
+                # refusing to resize while a view is exported is the Python convention (bytearray does the same): the view stays valid
+                pass
+            junk = [bytearray(b"\xff" * 64 * k) for k in range(1, 40)]     # recycle freed blocks
+            cases += 1
+            if view.tolist() != want:
+                bad += 1
+            del junk
+        if bad:
+            fail("py_striped_view_held", "%d of 20 views taken before scoring changed contents after scoring (dangling buffer)" % bad, ctor="L=%d,M=%d" % (length, width))
+    except BaseException as e:
+        fail("py_striped_view_held", "raised %s: %s" % (type(e).__name__, e), ctor="L=%d,M=%d" % (length, width))
+
 def nrows_seq(st, text):
     return (len(text) + 31) // 32
 
@@ -127,6 +155,8 @@ RC = 0
 if MODE in ("sweep", "search"):
     for w in (1, 2, 5, 7, 9, 15):
         run(w)
+    for (w, l) in ((3, 100), (40, 100), (70, 700)):
+        run_held_view(w, l)
     want = ARG if MODE == "search" and ARG not in ("", "C18") else None
     shown = set()
     for f in fails:
@@ -145,6 +175,8 @@ elif MODE == "replay":
     unit = inp.get("unit", "")
     for w in (1, 2, 5, 7, 9, 15):
         run(w)
+    for (w, l) in ((3, 100), (40, 100), (70, 700)):
+        run_held_view(w, l)
     still = [f for f in fails if f["unit"] == unit]
     if still:
         print("replay: STILL FAILS: " + still[0]["what"])
